@@ -26,3 +26,8 @@ func NewGramTokenizer(splitChars string, seed uint64, version uint32) Tokenizer 
 func FreeSimpleGramTokenizer(t Tokenizer) {
 	t.FreeSimpleGramTokenizer()
 }
+
+// NewPhraseTokenizer returns the tokenizer a MATCHPHRASE phrase is looked up by in a bloom filter.
+func NewPhraseTokenizer(splitTable []byte, version uint32, defaultNilSplit uint8) Tokenizer {
+	return NewSimpleGramTokenizer(splitTable, version, defaultNilSplit)
+}
